@@ -324,7 +324,8 @@ fn builder_trip_cases(r: &mut Rng, n: usize, sink: &mut Sink) {
     use crate::train::*;
     for k in 0..n {
         let train = gen_train(r, k % 3, k % 2 == 0);
-        let days = if k % 4 == 3 { None } else { Some(r.int(1, 60) as i32) };
+        // days up to and beyond a year (factor below 1: a multi-year simulation is scaled DOWN to one year)
+        let days = if k % 4 == 3 { None } else if k % 4 == 1 { Some(*r.pick(&[365, 366, 400, 731, 1461])) } else { Some(r.int(1, 60) as i32) };
         let year = if k % 5 == 4 { None } else { Some(2020 + r.int(0, 30) as i32) };
         let b = builder(&train, None, true);
         let mut sim = match catch(std::panic::AssertUnwindSafe(|| b.make_speed_limit_train_sim(&location_map(), Some(1), days, year))) { Ok(Ok(s)) => s, _ => continue };
@@ -361,7 +362,7 @@ pub fn run(seed: u64, n: usize, sink: &mut Sink) {
         if with_hybrid { con.loco_vec.push(Locomotive::default_hybrid_electric_loco()); }
         let _ = altrios_core::traits::SerdeAPI::init(&mut con);
         let kind = if t % 2 == 0 { "set_speed" } else { "speed_limit" };
-        let days = if r.chance(0.5) { Some(r.int(1, 30) as i32) } else { None };
+        let days = if r.chance(0.5) { Some(if r.chance(0.25) { *r.pick(&[365, 366, 400, 731]) } else { r.int(1, 30) as i32 }) } else { None };
         let mut irregular = false;
         let mut sim = if t % 2 == 0 {
             let mut s = SetSpeedTrainSim::default(); s.loco_con = con; s.set_save_interval(Some(1));
